@@ -977,3 +977,73 @@ M("C11-workers-resorted-after", "C11", "R11.5", PJ,
   """                    allocating_workers = list(filter(lambda worker: worker.has_workamount_skill(task.name) and self.__is_allocated_worker(worker, task), free_worker_list))
                     allocating_workers = sorted(allocating_workers, key=lambda w: w.name)
 """)
+
+# ---------------------------------------------------------------------------------------- C19
+M("C19-off-by-one-length", "C19", "R19.1", TK,
+  """                        if previous_state == BaseTaskState.WORKING:
+                            working_time_list.append((from_time, to_time - 1 - from_time + finish_margin))
+                        elif previous_state == BaseTaskState.READY:""",
+  """                        if previous_state == BaseTaskState.WORKING:
+                            working_time_list.append((from_time, to_time - from_time + finish_margin))
+                        elif previous_state == BaseTaskState.READY:""")
+M("C19-drop-working-to-ready-emission", "C19", "R19.1", TK,
+  """                    if state == BaseTaskState.READY:
+                        if previous_state == BaseTaskState.WORKING:
+                            working_time_list.append((from_time, to_time - 1 - from_time + finish_margin))
+""", "")
+M("C19-swap-target-lists", "C19", "R19.1", WK,
+  """                    if state == BaseWorkerState.WORKING:
+                        if previous_state == BaseWorkerState.FREE:
+                            ready_time_list.append((from_time, to_time - 1 - from_time + finish_margin))""",
+  """                    if state == BaseWorkerState.WORKING:
+                        if previous_state == BaseWorkerState.FREE:
+                            working_time_list.append((from_time, to_time - 1 - from_time + finish_margin))""")
+M("C19-finish-minus-one", "C19", "R19.2", TK,
+  """        for from_time, length in working_time_list:
+            to_time = from_time + length""",
+  """        for from_time, length in working_time_list:
+            to_time = from_time + length - 1""")
+M("C19-extract-le-to-lt", "C19", "R19.3", WF,
+  """                if len(task.state_record_list) <= time:
+                    extract_flag = False
+                    break""",
+  """                if len(task.state_record_list) < time:
+                    extract_flag = False
+                    break""")
+M("C19-set-last-datetime-time", "C19", "R19.4", PJ,
+  """        init_datetime = last_datetime - unit_timedelta * (self.time - 1)""",
+  """        init_datetime = last_datetime - unit_timedelta * self.time""")
+M("C19-flush-wrong-length", "C19", "R19.1", CP,
+  """            if previous_state == BaseComponentState.WORKING:
+                working_time_list.append((from_time, time - from_time + finish_margin))""",
+  """            if previous_state == BaseComponentState.WORKING:
+                working_time_list.append((from_time, time - from_time - 1 + finish_margin))""")
+M("C19-previous-not-updated", "C19", "R19.1", FA,
+  """                    from_time = time
+                    to_time = -1
+            previous_state = state""",
+  """                    from_time = time
+                    to_time = -1
+                    previous_state = state""")
+M("C19-wrapper-wrong-state", "C19", "R19.3", PD,
+  """        return self.__extract_state_component_list(target_time_list, BaseComponentState.READY)""",
+  """        return self.__extract_state_component_list(target_time_list, BaseComponentState.WORKING)""")
+M("C19-row-label-swapped", "C19", "R19.2", TM,
+  """df.append({'Task': self.name + ': ' + worker.name, 'Start': (init_datetime + from_time * unit_timedelta).strftime('%Y-%m-%d %H:%M:%S'), 'Finish': (init_datetime + to_time * unit_timedelta).strftime('%Y-%m-%d %H:%M:%S'), 'State': 'ABSENCE', 'Type': 'Facility'})""",
+  """df.append({'Task': self.name + ': ' + worker.name, 'Start': (init_datetime + from_time * unit_timedelta).strftime('%Y-%m-%d %H:%M:%S'), 'Finish': (init_datetime + to_time * unit_timedelta).strftime('%Y-%m-%d %H:%M:%S'), 'State': 'READY', 'Type': 'Facility'})""")
+M("C19-initial-previous-ready", "C19", "R19.1", TK,
+  """        previous_state = BaseTaskState.NONE
+        from_time = -1""",
+  """        previous_state = BaseTaskState.READY
+        from_time = -1""")
+M("C19-extract-any-instead-of-all", "C19", "R19.3", WP,
+  """                if facility.state_record_list[time] != target_state:
+                    extract_flag = False
+                    break""",
+  """                if facility.state_record_list[time] != target_state:
+                    extract_flag = False
+                else:
+                    extract_flag = True""")
+B("benign-extract-guard-spelling", ["C19"], TM,
+  """                if len(worker.state_record_list) <= time:""",
+  """                if not time < len(worker.state_record_list):""")
